@@ -60,12 +60,26 @@ Record lstate := mkL {
   l_next : Z;                   (* next cid *)
 }.
 
+(* The history of a run: inputs consumed and outputs produced, interleaved in the
+   order in which they happened (kept reversed: newest first). *)
+Inductive ev := EIn (l : line) | EOut (l : line).
+
 Record world := mkW {
   st : lstate;
   inp : list line;
-  out : list line;              (* reversed *)
+  log : list ev;                (* reversed *)
   halt : bool;
 }.
+
+(* Output lines named "g" are ghost markers: they document what the loop did in terms
+   the specifications speak about (bytes submitted / handed to the kernel / delivered),
+   and are not part of the observable output compared with the implementation. *)
+Definition is_ghost (l : line) : bool := String.eqb (fst l) "g".
+
+Definition out_of (lg : list ev) : list line :=
+  flat_map (fun e => match e with EOut l => if is_ghost l then [] else [l] | EIn _ => [] end) lg.
+Definition in_of (lg : list ev) : list line :=
+  flat_map (fun e => match e with EIn l => [l] | EOut _ => [] end) lg.
 
 Inductive res := RNil | RErr | RShutdown | RAccept.
 
@@ -90,6 +104,9 @@ Fixpoint aremove {A} (k : Z) (m : list (Z * A)) : list (Z * A) :=
 
 Definition aset {A} (k : Z) (v : A) (m : list (Z * A)) : list (Z * A) := (k, v) :: aremove k m.
 
+Definition fd_in_use (s : lstate) (fd : Z) : bool :=
+  match alookup fd (l_reg s) with Some _ => true | None => false end.
+
 Definition dummy_conn : conn := mkConn (-1) false false [] [] [] false false.
 
 Definition getc (s : lstate) (cid : Z) : conn :=
@@ -111,7 +128,7 @@ Definition set_next (s : lstate) (n : Z) : lstate :=
   mkL (l_et s) (l_chunk s) (l_bufcap s) (l_efd s) (l_thr s) (l_maxlow s) (l_listeners s)
       (l_conns s) (l_reg s) (l_urgent s) (l_low s) (l_flag s) n.
 
-Definition with_st (w : world) (s : lstate) : world := mkW s (inp w) (out w) (halt w).
+Definition with_st (w : world) (s : lstate) : world := mkW s (inp w) (log w) (halt w).
 Definition wc (w : world) (cid : Z) : conn := getc (st w) cid.
 Definition wsetc (w : world) (cid : Z) (c : conn) : world := with_st w (setc (st w) cid c).
 
@@ -130,9 +147,12 @@ Definition c_release (c : conn) : conn :=
 (* output / input *)
 
 Definition emit (l : line) (w : world) : world :=
-  if halt w then w else mkW (st w) (inp w) (l :: out w) (halt w).
+  if halt w then w else mkW (st w) (inp w) (EOut l :: log w) (halt w).
 
-Definition stop (w : world) : world := mkW (st w) (inp w) (out w) true.
+Definition ghost (what : string) (cid : Z) (bs : list Z) (w : world) : world :=
+  emit ("g", [ASym what; AInt cid; ABytes bs]) w.
+
+Definition stop (w : world) : world := mkW (st w) (inp w) (log w) true.
 
 Definition desync (what : string) (w : world) : world :=
   stop (emit (obs "desync" [ASym what]) w).
@@ -188,20 +208,22 @@ Definition is_pick (l : line) : bool :=
   match l with ("pick", _) => true | _ => false end.
 
 (* next input line for the loop; requests of other goroutines met on the way are applied *)
-Fixpoint pull_from (picks : bool) (s : lstate) (i : list line) : lstate * option line * list line :=
+Fixpoint pull_from (picks : bool) (s : lstate) (lg : list ev) (i : list line)
+  : lstate * list ev * option line * list line :=
   match i with
-  | [] => (s, None, [])
+  | [] => (s, lg, None, [])
   | l :: r => match apply_async s l with
-              | Some s' => pull_from picks s' r
-              | None => if negb picks && is_pick l then pull_from picks s r else (s, Some l, r)
+              | Some s' => pull_from picks s' (EIn l :: lg) r
+              | None => if negb picks && is_pick l then pull_from picks s lg r
+                        else (s, EIn l :: lg, Some l, r)
               end
   end.
 
 Definition pull_gen (picks : bool) (w : world) : option line * world :=
   if halt w then (None, w) else
-  match pull_from picks (st w) (inp w) with
-  | (s, None, r) => (None, mkW s r (out w) true)          (* trace ended here *)
-  | (s, Some l, r) => (Some l, mkW s r (out w) false)
+  match pull_from picks (st w) (log w) (inp w) with
+  | (s, lg, None, r) => (None, mkW s r lg true)          (* trace ended here *)
+  | (s, lg, Some l, r) => (Some l, mkW s r lg false)
   end.
 
 (* `pick` lines (iteration order of closeConns) only matter to close_conns *)
@@ -232,17 +254,22 @@ Definition is_eagain (e : string) := sym_eqb e "eagain".
 (* a data-writing system call (write or writev) on a connection:
    returns the kernel result; `offered` bytes are predicted after the result line
    tells how many bytes of `src` were offered (the iov shape is not modelled). *)
-Definition sys_wr (fd : Z) (src : list Z) (exact : bool) (w : world) : kres * world :=
+Definition sys_wr (cid : Z) (fd : Z) (src : list Z) (exact : bool) (w : world) : kres * world :=
   let w1 := emit (obs "sys" [ASym "wr"; AInt fd]) w in
   match pull w1 with
   | (None, w') => (KNone, w')
   | (Some ("r", ASym nm :: AInt off :: AInt n :: rest), w') =>
       if negb (sym_eqb nm "wr") then (KNone, desync "syscall-name" w') else
+      (* kernel contract: it accepts at most what was offered, and what is offered comes from src *)
+      if (off <? 0) || (zlen src <? off) || (off <? n) then (KNone, desync "kernel-contract-wr" w') else
       let offered := if exact then src else ztake off src in
       let w2 := emit (obs "wdata" [ABytes offered]) w' in
       if n <? 0 then
-        match rest with ASym e :: _ => (KErr e, w2) | _ => (KErr "err", w2) end
-      else (KOk n [], w2)
+        match rest with
+        | ASym e :: _ => (KErr e, if is_eagain e then w2 else ghost "fail" cid [] w2)
+        | _ => (KErr "err", ghost "fail" cid [] w2)
+        end
+      else (KOk n [], ghost "hand" cid (ztake n offered) w2)
   | (Some _, w') => (KNone, desync "expected-r-wr" w')
   end.
 
@@ -339,7 +366,7 @@ with close_drain (fuel : nat) (cid : Z) (w : world) {struct fuel} : world :=
     match c_out c with
     | [] => w
     | _ =>
-      match sys_wr (c_fd c) (c_out c) false w with
+      match sys_wr cid (c_fd c) (c_out c) false w with
       | (KOk n _, w1) =>
           let c1 := wc w1 cid in
           close_drain f cid (wsetc w1 cid (c_set_out c1 (zdrop n (c_out c1))))
@@ -356,6 +383,7 @@ with conn_write (fuel : nat) (cid : Z) (data : list Z) (w : world) {struct fuel}
     let c := wc w cid in
     let n := zlen data in
     if negb (c_opened c) then ((0, false), w) else
+    let w := ghost "sub" cid data w in
     match c_out c with
     | _ :: _ => ((n, true), wsetc w cid (c_set_out c (c_out c ++ data)))
     | [] =>
@@ -371,7 +399,7 @@ with conn_write_loop (fuel : nat) (cid : Z) (data : list Z) (n : Z) (w : world) 
   | S f =>
     let c := wc w cid in
     let et := l_et (st w) in
-    match sys_wr (c_fd c) data true w with
+    match sys_wr cid (c_fd c) data true w with
     | (KErr e, w1) =>
         if is_eagain e then
           let c1 := wc w1 cid in
@@ -404,7 +432,7 @@ with conn_writev_loop (fuel : nat) (cid : Z) (segs : list (list Z)) (n : Z) (w :
     let c := wc w cid in
     let et := l_et (st w) in
     let iov := firstn 1024 segs in
-    match sys_wr (c_fd c) (List.concat iov) true w with
+    match sys_wr cid (c_fd c) (List.concat iov) true w with
     | (KErr e, w1) =>
         if is_eagain e then
           let c1 := wc w1 cid in
@@ -438,6 +466,7 @@ with conn_writev (fuel : nat) (cid : Z) (segs : list (list Z)) (w : world) {stru
     let data := List.concat segs in
     let n := zlen data in
     if negb (c_opened c) then ((0, false), w) else
+    let w := ghost "sub" cid data w in
     match c_out c with
     | _ :: _ => ((n, true), wsetc w cid (c_set_out c (c_out c ++ data)))
     | [] =>
@@ -462,7 +491,7 @@ with el_write (fuel : nat) (cid : Z) (sent : Z) (w : world) {struct fuel} : res 
     match c_out c with
     | [] => (RNil, w)
     | _ =>
-      match sys_wr (c_fd c) (c_out c) false w with
+      match sys_wr cid (c_fd c) (c_out c) false w with
       | (KNone, w1) => (RNil, w1)
       | (KErr e, w1) =>
           if is_eagain e then (RNil, w1) else el_close f cid false w1
@@ -505,7 +534,7 @@ with hcall (fuel : nat) (cid : Z) (call : string) (args : list arg) (w : world) 
   | S f =>
   let c := wc w cid in
   let total := zlen (c_in c) + zlen (c_buf c) in
-  let hr (vals : list arg) (w : world) := emit (obs "hr" (ASym call :: vals)) w in
+  let hr (vals : list arg) (w : world) := emit (obs "hr" (AInt cid :: ASym call :: vals)) w in
   (* the connection the call targets: `on <cid'>` prefix is handled by the caller *)
   if sym_eqb call "read" then
     match args with
@@ -603,7 +632,7 @@ with hcall (fuel : nat) (cid : Z) (call : string) (args : list arg) (w : world) 
     end
   else if sym_eqb call "readfrom" then
     match args with
-    | [ABytes d] => hr [AInt (zlen d); ASym "nil"] (wsetc w cid (c_set_out c (c_out c ++ d)))
+    | [ABytes d] => hr [AInt (zlen d); ASym "nil"] (wsetc (ghost "sub" cid d w) cid (c_set_out c (c_out c ++ d)))
     | _ => desync "h-readfrom-args" w
     end
   else if sym_eqb call "asyncwrite" then
@@ -663,14 +692,16 @@ Fixpoint el_read (fuel : nat) (cid : Z) (recv : Z) (w : world) {struct fuel} : r
     else
     match sys "read" [AInt (c_fd c); AInt (l_bufcap (st w))] w with
     | (KNone, w1) => (RNil, w1)
-    | (KErr e, w1) => if is_eagain e then (RNil, w1) else el_close (S f) cid false w1
+    | (KErr e, w1) => if is_eagain e then (RNil, w1) else el_close (S f) cid false (ghost "fail" cid [] w1)
     | (KOk n extra, w1) =>
-        if n =? 0 then el_close (S f) cid false w1
+        if n =? 0 then el_close (S f) cid false (ghost "fail" cid [] w1)
         else
           let data := match extra with ABytes b :: _ => b | _ => [] end in
+          (* kernel contract: read returns exactly n bytes, at most the buffer size *)
+          if negb (zlen data =? n) || (l_bufcap (st w1) <? n) then (RErr, desync "kernel-contract-read" w1) else
           let recv' := recv + n in
           let c1 := wc w1 cid in
-          let w2 := wsetc w1 cid (c_set_buf c1 data) in
+          let w2 := wsetc (ghost "del" cid data w1) cid (c_set_buf c1 data) in
           let w3 := emit (obs "cb" [ASym "traffic"; AInt cid]) w2 in
           let '(act, _, w4) := handler (S f) cid w3 in
           match act with
@@ -710,6 +741,7 @@ Definition el_open (fuel : nat) (cid : Z) (w : world) : res * world :=
     | None => (true, w3)
     | Some data =>
       let c3 := wc w3 cid in
+      let w3 := if c_udp c3 then w3 else ghost "openreply" cid [] (ghost "sub" cid data w3) in
       if c_udp c3 && negb (c_remote c3) then
         match sys "sendto" [AInt (c_fd c3); ABytes data; bool_arg false] w3 with
         | (KErr _, w') => (false, w')
@@ -725,12 +757,12 @@ Definition el_open (fuel : nat) (cid : Z) (w : world) : res * world :=
              match data with
              | [] =>
                (* unix.Write is still called once with an empty slice *)
-               match sys_wr (c_fd (wc w cid)) [] true w with
+               match sys_wr cid (c_fd (wc w cid)) [] true w with
                | (KErr e, w') => if is_eagain e then (true, w') else (false, w')
                | (_, w') => (true, w')
                end
              | _ =>
-             match sys_wr (c_fd (wc w cid)) data true w with
+             match sys_wr cid (c_fd (wc w cid)) data true w with
              | (KErr e, w') =>
                  if is_eagain e then
                    let c' := wc w' cid in (true, wsetc w' cid (c_set_out c' (c_out c' ++ data)))
@@ -745,6 +777,7 @@ Definition el_open (fuel : nat) (cid : Z) (w : world) : res * world :=
              end
            end) (S (List.length (inp w3))) data w3
     end in
+  let w4 := ghost "openreply-end" cid [] w4 in
   if negb ok then (RErr, w4)
   else
     let c4 := wc w4 cid in
@@ -767,6 +800,7 @@ Definition el_open (fuel : nat) (cid : Z) (w : world) : res * world :=
 Definition el_register0 (fuel : nat) (cid : Z) (w : world) : res * world :=
   let c := wc w cid in
   let et := l_et (st w) in
+  if fd_in_use (st w) (c_fd c) then (RErr, desync "kernel-contract-fd" w) else
   let '(r, w1) := epctl "add" (c_fd c) et et w in
   match r with
   | RNil =>
@@ -834,7 +868,7 @@ Definition el_read_udp (fuel : nat) (fd : Z) (is_listener : bool) (w : world) : 
         match alookup fd (l_reg (st w1)) with
         | None => (RErr, desync "udp-no-conn" w1)
         | Some cid =>
-          let w2 := wsetc w1 cid (c_set_buf (wc w1 cid) data) in
+          let w2 := wsetc (ghost "udpconn" cid [] w1) cid (c_set_buf (wc w1 cid) data) in
           let w3 := emit (obs "cb" [ASym "traffic"; AInt cid]) w2 in
           let '(act, _, w4) := handler fuel cid w3 in
           match act with AShutdown => (RShutdown, w4) | _ => (RNil, w4) end
@@ -851,6 +885,8 @@ Definition el_accept (fuel : nat) (lfd : Z) (is_udp : bool) (w : world) : res * 
         if is_eagain e || sym_eqb e "eintr" || sym_eqb e "econnreset" || sym_eqb e "econnaborted"
         then (RNil, w1) else (RAccept, w1)
     | (KOk nfd _, w1) =>
+        (* kernel contract: a new descriptor is not one the loop still has registered *)
+        if fd_in_use (st w1) nfd then (RErr, desync "kernel-contract-fd" w1) else
         let cid := l_next (st w1) in
         let c := mkConn nfd false false [] [] [] false true in
         el_register0 fuel cid (with_st w1 (set_next (setc (st w1) cid c) (cid + 1)))
@@ -1031,5 +1067,5 @@ Definition init_world (i : list line) : option world :=
 Definition run_loop : runner := fun i =>
   match init_world i with
   | None => [obs "desync" [ASym "no-cfg"]]
-  | Some w => rev (out (polling (S (List.length i)) w))
+  | Some w => out_of (rev (log (polling (S (List.length i)) w)))
   end.
